@@ -22,6 +22,8 @@ def select(rnd, fam, tier_all=False):
     t2 = [t for t in tuples if t[1] <= 2]
     chosen = [rnd.choice([t for t in t4 if t[0] == "fft" and t[2] < 4]), rnd.choice([t for t in t4 if t[0] == "ifft"]), rnd.choice(t2)]
     big = rnd.choice(t8)
+    odd_delta = rnd.choice([0, 2, 4, 65534])
+    odd_trunc = rnd.choice([1, 3, 5])
     for m in fam:
         key = (m.get("op"), m.get("size"), m.get("trunc"), m.get("delta"))
         if m["kind"] in ("basis", "additive") and key in chosen:
@@ -29,6 +31,11 @@ def select(rnd, fam, tier_all=False):
         if m["kind"] == "basis" and key == big and m["p"] in (0, big[1] - 1 if big[0] == "fft" else big[2] - 1):
             q.add(m["name"])
         if m["kind"] == "miter" and (key in chosen[:2] or (key == big and m["engine"] == "avx2")):
+            q.add(m["name"])
+        # every engine: a final-odd-layer fft with an odd truncated size (size 2 and size 8) and a truncated ifft
+        if m["kind"] == "miter" and key in (("fft", 2, 1, odd_delta), ("fft", 8, odd_trunc, 0), ("ifft", 8, odd_trunc, 8)) and not (m["engine"] == "naive" and m["size"] > 4):
+            q.add(m["name"])
+        if m["kind"] == "basis" and key == ("fft", 2, 1, odd_delta):
             q.add(m["name"])
         if m["kind"] == "kat" and m["size"] == 4:
             q.add(m["name"])
